@@ -112,8 +112,8 @@ def bare_retry(crate, meta, failed, cases_by_id, log):
     shutil.copy(os.path.join(crate, "Cargo.lock"), os.path.join(bare, "Cargo.lock"))
     shutil.copy(os.path.join(crate, ".cargo", "config.toml"), os.path.join(bare, ".cargo", "config.toml"))
     open(os.path.join(bare, "Cargo.toml"), "w").write(
-        "[package]\nname = \"rtbare\"\nversion = \"0.0.0\"\nedition = \"2021\"\n[dependencies]\nenum-tools = { path = \"/repo\" }\n[workspace]\n"
-        "[profile.dev]\ndebug = false\nincremental = false\n[profile.dev.build-override]\nopt-level = 1\ndebug = false\n")
+        "[package]\nname = \"rtbare\"\nversion = \"0.0.0\"\nedition = \"2021\"\n[dependencies]\nenum-tools = { path = \"%s\" }\n[workspace]\n"
+        "[profile.dev]\ndebug = false\nincremental = false\n[profile.dev.build-override]\nopt-level = 1\ndebug = false\n" % os.environ.get("VERIF_REPO", "/repo"))
     remaining = list(ids)
     for rnd in range(4):
         src, spans = ["#![allow(warnings)]"], []
